@@ -142,12 +142,17 @@ def gen_scenario(seed: int, algos: Sequence[str], envs: Optional[Sequence[str]] 
     if algo in ("PaVeBaGP", "PaVeBaPartialGP", "VOGP", "EpsilonPAL", "DecoupledGP"):
         # batches larger than the active set (F10) only when asked for (open finding D1 otherwise
         # ends most runs at once)
-        opts = [1, 1, 2, 3] + ([K, K + 1, 2 * K] if features.get("big_batch") else [])
+        opts = [1, 1, 1, 2, 2, 3, 3] + ([K, K + 1, 2 * K] if features.get("big_batch", True) else [])
         sc["batch"] = int(rng.choice(opts))
+    provoke = bool(features.get("provoke_open_findings"))
     if algo == "PaVeBaGP":
         sc["gp_type"] = str(rng.choice(["IH", "DE"]))
+        if Kf != m and not provoke:
+            sc["gp_type"] = "DE"  # open finding: rectangles reject a K_f-vector slack
     if algo == "PaVeBaPartialGP":
         sc["conf_type"] = str(rng.choice(["hyperrectangle", "hyperellipsoid"]))
+        if Kf != m and not provoke:
+            sc["conf_type"] = "hyperellipsoid"
         if rng.random() < 0.6:
             sc["costs"] = [float(x) for x in np.round(rng.uniform(0.5, 3.0, size=m), 2)]
             if rng.random() < 0.5:
@@ -160,7 +165,9 @@ def gen_scenario(seed: int, algos: Sequence[str], envs: Optional[Sequence[str]] 
     if algo == "NaiveElimination":
         sc["L"] = int(rng.choice([1, 2, 5, 12]))
     if algo == "VOGP_AD":
-        sc["vad"] = {"in_dim": int(rng.choice([1, 1, 2])), "depth_max": int(rng.choice([2, 3])), "key": st["adv_key"]}
+        # open finding: in_dim < out_dim crashes in calculate_design_vh; only provoked on request
+        in_dim = int(rng.choice([1, 2, 2])) if provoke else int(rng.choice([2, 2, 2, 3]))
+        sc["vad"] = {"in_dim": in_dim, "depth_max": int(rng.choice([2, 3])) if in_dim < 3 else 2, "key": st["adv_key"]}
         if sc["vad"]["in_dim"] == 1:
             sc["vad"]["depth_max"] = int(rng.choice([2, 3, 4]))
         sc["contraction"] = float(rng.choice([4, 32, 1024]))
